@@ -12,6 +12,7 @@ import (
 	"fmt"
 	uuid "github.com/satori/go.uuid"
 	"math"
+	"os"
 	"runtime"
 	"sort"
 	"strings"
@@ -28,6 +29,35 @@ import (
 	"github.com/sirupsen/logrus"
 	"google.golang.org/grpc"
 )
+
+// ---- schedule jitter (diagnosis only) ------------------------------------------
+
+var (
+	jitterOnce sync.Once
+	jitterMax  int64
+	jitterSeq  uint64
+)
+
+// Jitter sleeps for a pseudo-random time up to VERIF_CHAOS microseconds (unset = no effect). It is a diagnosis aid for
+// schedule-dependent failures (it widens the interleavings a loaded machine produces); no registered command sets it.
+func Jitter() {
+	jitterOnce.Do(func() {
+		if v := os.Getenv("VERIF_CHAOS"); v != "" {
+			fmt.Sscanf(v, "%d", &jitterMax)
+		}
+	})
+	if jitterMax <= 0 {
+		return
+	}
+	x := atomic.AddUint64(&jitterSeq, 0x9E3779B97F4A7C15) ^ uint64(time.Now().UnixNano())
+	x ^= x >> 29
+	x *= 0xBF58476D1CE4E5B9
+	x ^= x >> 32
+	if x%4 != 0 { // most calls pass straight through
+		return
+	}
+	time.Sleep(time.Duration(int64(x>>8)%jitterMax) * time.Microsecond)
+}
 
 // ---- fatal trap ---------------------------------------------------------------
 
@@ -117,7 +147,10 @@ func AttestsOnlyDurable(d Durable, m raftpb.Message) string {
 			return fmt.Sprintf("grants its vote to %d in term %d but its durable hard state is term %d vote %d", m.To, m.Term, d.Term, d.Vote)
 		}
 	case raftpb.MsgAppResp:
-		if !m.Reject && (d.Term < m.Term || d.LastIndex < m.Index) {
+		// (an acknowledgement of an earlier term that leaves after the replica has made a later term durable is not held to
+		// the index: the library queued it when the entries were in its log, and a conflicting append of the later term,
+		// made durable by the same write, has replaced them since - the same allowance the vote rule makes; DESIGN 11.3 (31))
+		if !m.Reject && (d.Term < m.Term || (d.Term == m.Term && d.LastIndex < m.Index)) {
 			return fmt.Sprintf("acknowledges entries up to %d in term %d but its durable log ends at %d (durable term %d)", m.Index, m.Term, d.LastIndex, d.Term)
 		}
 	}
@@ -143,6 +176,9 @@ type MonWAL struct {
 	After       bool     // perform write k, then die (otherwise die before performing it)
 	Crashed     bool
 	OnCrash     func() // called once when the crash fires (under no lock)
+	// Trace, if set, receives one line per write handed to the store and its outcome (diagnosis of schedule-dependent
+	// failures: the check prints the history itself, rapid cannot reproduce them)
+	Trace func(string)
 	Violations  []string
 	// EmptySnapshotInstalls counts received snapshots without payload (the state machine was empty at the leader)
 	EmptySnapshotInstalls int
@@ -290,7 +326,7 @@ func (m *MonWAL) violate(f string, a ...interface{}) {
 func (m *MonWAL) crashNow() {
 	m.Crashed = true
 	if m.OnCrash != nil {
-		go m.OnCrash()
+		go func() { Jitter(); m.OnCrash() }()
 	}
 }
 
@@ -306,6 +342,9 @@ func (m *MonWAL) Save(hs raftpb.HardState, ents []raftpb.Entry, snap raftpb.Snap
 		}
 	}
 	empty := etcdRaft.IsEmptyHardState(hs) && len(ents) == 0 && etcdRaft.IsEmptySnap(snap)
+	if m.Trace != nil && !empty {
+		m.Trace("save " + DescribeWrite(hs, ents, snap))
+	}
 	kind := WriteHardState
 	if !etcdRaft.IsEmptySnap(snap) {
 		kind = WriteSnapshot
@@ -340,9 +379,11 @@ func (m *MonWAL) Save(hs raftpb.HardState, ents []raftpb.Entry, snap raftpb.Snap
 			m.violate("entry at committed index %d (commit %d) overwritten: durable term %d, new term %d", e.Index, m.D.Commit, t, e.Term)
 		}
 	}
+	Jitter()
 	if err := m.WAL.Save(hs, ents, snap); err != nil {
 		return err
 	}
+	Jitter()
 	if !etcdRaft.IsEmptySnap(snap) {
 		m.D.Terms = map[uint64]uint64{}
 		m.D.SnapIndex, m.D.LastIndex = snap.Metadata.Index, snap.Metadata.Index
@@ -383,6 +424,9 @@ func (m *MonWAL) CreateSnapshot(i uint64, cs *raftpb.ConfState, data []byte) (ra
 	}
 	m.Writes++
 	m.Kinds = append(m.Kinds, WriteCompact)
+	if m.Trace != nil {
+		m.Trace(fmt.Sprintf("local-snapshot at %d conf=%v data=%q", i, cs, data))
+	}
 	if m.CrashAt == m.Writes && !m.After {
 		m.crashNow()
 		return raftpb.Snapshot{}, ErrCrashed
@@ -432,6 +476,46 @@ func (m *MonWAL) DeleteGroup() error {
 	m.D = Durable{Terms: map[uint64]uint64{}}
 	m.baseConf, m.confEnts = map[uint64]bool{}, map[uint64]raftpb.ConfChange{}
 	return err
+}
+
+// DescribeWrite renders what a Ready asked the store to make durable.
+func DescribeWrite(hs raftpb.HardState, ents []raftpb.Entry, snap raftpb.Snapshot) string {
+	var b strings.Builder
+	if !etcdRaft.IsEmptyHardState(hs) {
+		fmt.Fprintf(&b, "hs{term=%d vote=%d commit=%d} ", hs.Term, hs.Vote, hs.Commit)
+	}
+	if !etcdRaft.IsEmptySnap(snap) {
+		fmt.Fprintf(&b, "snap{index=%d term=%d nodes=%v data=%q} ", snap.Metadata.Index, snap.Metadata.Term, snap.Metadata.ConfState.Nodes, snap.Data)
+	}
+	b.WriteString(DescribeEntries(ents))
+	return b.String()
+}
+
+func DescribeEntries(ents []raftpb.Entry) string {
+	var b strings.Builder
+	for _, e := range ents {
+		if e.Type == raftpb.EntryNormal {
+			fmt.Fprintf(&b, "[%d/t%d %q]", e.Index, e.Term, e.Data)
+		} else {
+			fmt.Fprintf(&b, "[%d/t%d conf]", e.Index, e.Term)
+		}
+	}
+	return b.String()
+}
+
+// DescribeMsg renders a raft message for a history dump.
+func DescribeMsg(m raftpb.Message) string {
+	s := fmt.Sprintf("%s %d->%d term=%d logterm=%d index=%d commit=%d", m.Type, m.From, m.To, m.Term, m.LogTerm, m.Index, m.Commit)
+	if m.Reject {
+		s += fmt.Sprintf(" REJECT hint=%d", m.RejectHint)
+	}
+	if len(m.Entries) > 0 {
+		s += " ents=" + DescribeEntries(m.Entries)
+	}
+	if !etcdRaft.IsEmptySnap(m.Snapshot) {
+		s += fmt.Sprintf(" snap{index=%d term=%d data=%q}", m.Snapshot.Metadata.Index, m.Snapshot.Metadata.Term, m.Snapshot.Data)
+	}
+	return s
 }
 
 // EntryWrites counts the proposal entries (normal entries with data) handed to Save so far.
@@ -512,6 +596,8 @@ type Net struct {
 	OnSend func(from uint64, m raftpb.Message)
 	// OnSendGroup: the same, with the raft group the message belongs to (several groups per node).
 	OnSendGroup func(from uint64, group uuid.UUID, m raftpb.Message)
+	// OnDecision, if set, is told what the link decided for a message (history dumps)
+	OnDecision func(from, to uint64, m raftpb.Message, decision int)
 	Stats       map[string]int
 	wg          sync.WaitGroup
 }
@@ -606,11 +692,15 @@ func (s *shim) Receive(ctx context.Context, in *pb.RaftMessage, _ ...grpc.CallOp
 	}
 	n.Stats[fmt.Sprintf("link-decision-%d", dec)]++
 	n.mu.Unlock()
+	if n.OnDecision != nil {
+		n.OnDecision(s.from, s.to, m, dec)
+	}
 	// Like a gRPC call, delivery runs on the receiving side's goroutine and the
 	// sender waits no longer than its call deadline (500 ms in the product; capped
 	// at 3 ms here, which is one more way for a link to be slow): raft's Step can
 	// block on the receiver, e.g. a forwarded proposal to a node that knows no leader.
 	deliver := func() error {
+		Jitter()
 		if target == nil {
 			return errors.New("sim: target node is down")
 		}
@@ -618,6 +708,7 @@ func (s *shim) Receive(ctx context.Context, in *pb.RaftMessage, _ ...grpc.CallOp
 		n.wg.Add(1)
 		go func() {
 			defer n.wg.Done()
+			Jitter()
 			_, err := target.Receive(context.Background(), in)
 			done <- err
 		}()
